@@ -166,6 +166,32 @@ def step(case: int, op: int, p_std: bool, p_alias: bool, p_x: bool, p_y: bool, r
     return True
 
 
+def eq_content(case: int, v1: str, v2: str, v3: str, rot: int, with_charts: bool) -> bool:
+    """
+    pre: 0 <= case < len(CASES) and 0 <= rot <= 2
+    pre: len(v1) <= L1 and len(v2) <= L1 and len(v3) <= L1
+    post: _
+    """
+    # equality sees exactly the mapping's content: two objects whose key -> value mappings differ are unequal, even if they
+    # hold the same key set and their values line up position by position (same values, stored under other keys)
+    kind, attr, std, alias = CASES[case]
+    keys = [std, alias or "ZZOTHER", "ZZFRESH"]
+    vals = [v1, v2, v3]
+    a, b = _new(kind), _new(kind)
+    for k, v in zip(keys, vals):
+        a[k] = v
+    rk = keys[rot + 1:] + keys[:rot + 1] if rot < 2 else [keys[1], keys[0], keys[2]]
+    for k, v in zip(rk, vals):
+        b[k] = v                      # same key set, same values by position, other key -> value mapping
+    if with_charts and kind != "sscchart":
+        for o in (a, b):
+            o.charts.append(SSCChart.blank() if kind == "ssc" else SMChart.blank())
+    same_mapping = all(a[k] == b[k] for k in keys)
+    if same_mapping:
+        return True                   # e.g. all three values equal: the mappings coincide, nothing is claimed about order here
+    return (a != b) and not (a == b)
+
+
 SMOPS = 14
 
 
